@@ -133,8 +133,22 @@ def sweep(ctx, n_hist, n_ops):
                 hist.append((kind, np.asarray(angle_arg, dtype=float).tolist(), type(angle_arg).__name__, "xyz"[ax_i], None if anchor is None else np.asarray(anchor).tolist(), start))
                 if kind == "angax":
                     obj.rotate_from_angax(angle_arg, "xyz"[ax_i] if rng.random() < 0.5 else tuple(axv * 2.5), anchor=anchor, start=start_arg(start))
-                else:
+                elif rng.random() < 0.5:
                     obj.rotate_from_euler(angle_arg, "xyz"[ax_i], anchor=anchor, start=start_arg(start))
+                else:
+                    # a sequence of two or three axes: ONE flat set of angles is one rotation (scalar input), an (n, W) array is n rotations
+                    seq = rng.choice(["xy", "zx", "xyz", "zyx", "XYZ", "ZX"])
+                    W = len(seq)
+                    if scalar_in:
+                        a2 = nps.uniform(-170, 170, W)
+                        angle_arg = rng.choice([list(a2), tuple(a2), np.array(a2)])
+                        rot = R.from_euler(seq, np.asarray(angle_arg, dtype=float), degrees=True)
+                    else:
+                        a2 = nps.uniform(-170, 170, (n, W))
+                        angle_arg = rng.choice([a2.tolist(), np.array(a2)])
+                        rot = R.from_euler(seq, np.asarray(angle_arg, dtype=float), degrees=True)
+                    obj.rotate_from_euler(angle_arg, seq, anchor=anchor, start=start_arg(start))
+                    branch[f"euler-multi:{'scalar' if scalar_in else 'vector'}:W={W}"] = branch.get(f"euler-multi:{'scalar' if scalar_in else 'vector'}:W={W}", 0) + 1
                 P, Q = ref_rotate(P, Q, rot, anchor, start)
                 branch[f"{kind}-{'scalar' if scalar_in else 'vector'}:{type(angle_arg).__name__}:n={1 if scalar_in else n}"] = branch.get(f"{kind}-{'scalar' if scalar_in else 'vector'}:{type(angle_arg).__name__}:n={1 if scalar_in else n}", 0) + 1
             elif kind == "setpos":
